@@ -17,10 +17,12 @@ PROVED here (all inputs): never out of fuel; `inflateRaw (storedChunks cs last +
 for `storedBlocks bs`), and `gunzip (gzipStored bs) = bs` through header, CRC-32 and ISIZE.
 PROVED in `InflateFixed.lean`: `inflate (fixedLiterals bs) = bs` — the literal path of the Huffman
 decoder on the fixed table (code bit order, canonical walk, symbol loop, end-of-block).
-TESTED only (not proved): length/distance symbols (LZ77 matches, overlapping ones included) and
-dynamic-table headers — `decide` vectors in `InflateTests.lean` (fixed block with an overlapping
-back-reference, dynamic block, the canonical-code walk against RFC 1951's explicit code assignment
-on the fixed tables), and the L1 check, which runs `gunzip` on every output of the real gzip codec
+PROVED in `InflateMatch.lean`: `inflate (fixedBlock toks) = applyToks toks` for every writable token
+list (length/distance symbols, extra bits, overlapping copies) and `inflate (deflateFixed w bs) = bs`
+(greedy LZ77 matcher + fixed-Huffman coding).
+TESTED only (not proved): dynamic-table headers and multi-block Huffman streams — `decide` vectors in
+`InflateTests.lean` (fixed block with an overlapping back-reference, dynamic block, the
+canonical-code walk against RFC 1951's explicit code assignment on the fixed tables), and the L1 check, which runs `gunzip` on every output of the real gzip codec
 next to Go's stdlib reader.
 
 Policy where RFC 1951 is silent: an over-subscribed set of code lengths is rejected (it is not a
